@@ -241,6 +241,17 @@ ChanNrBad ==
          : c \in DedChanNrs, m \in NeighModes}
 ChanNrJudged == Cardinality(DedChanNrs \X NeighModes)
 
+\* What the firmware schedules in a frame depends on the frame number alone, not on the frame
+\* numbers seen before: after the frame number jumped (cell synchronisation) onto any position of
+\* the multiframes and was walked on from there (FW.tasks[k].jcalls, frames 0..jmax), the calls
+\* are those of the frame-by-frame pass.  Items <<task, "extra"|"missing", call>>.
+HistoryBad ==
+  UNION {LET jc == Range(t.jcalls)
+             cc == {c \in Range(t.calls) : c[1] <= t.jmax}
+         IN {<<t.task, "extra-after-jump", c>> : c \in jc \ cc} \cup {<<t.task, "missing-after-jump", c>> : c \in cc \ jc}
+         : t \in Range(FW.tasks)}
+HistoryFree      == (IF fn >= 0 THEN HistoryBad ELSE {}) = {}
+
 StartsAgree      == StartsAgreeBad(fn) = {}
 BidCyclic        == BidCyclicBad(fn) = {}
 LookupInTable    == LookupInTableBad(fn) = {}
@@ -278,5 +289,7 @@ DiagInit ==
   /\ Diag("StartsAgree", StartsAgreeBad) /\ Diag("BidCyclic", BidCyclicBad) /\ Diag("LookupInTable", LookupInTableBad)
   /\ Diag("MaskCovers", MaskCoversBad) /\ Diag("LayoutValidForTn", LayoutValidForTnBad)
   /\ PrintT(<<"C11-ALL", "ChanNrTasks", {<<it, 0, {}>> : it \in ChanNrBad}>>)     \* not per frame
+  /\ PrintT(<<"C11-ALL", "HistoryFree", {<<<<it[1], it[2]>>, Cardinality({x \in HistoryBad : x[1] = it[1] /\ x[2] = it[2]}),
+                                          {x[3][1] : x \in {y \in HistoryBad : y[1] = it[1] /\ y[2] = it[2] /\ y[3][1] < 400}}>> : it \in HistoryBad}>>)
 DiagNext == FALSE /\ fn' = fn
 =============================================================================
